@@ -169,3 +169,73 @@ def rel_chain_fix(ctx, n, failing=None, cid="C10"):
             idx = [int(x) for x in vals[0].strip("[]").split(";") if x.strip()]
             mism.append(f"stream chain-fixpoint shard {si}: Relation.fixpoint differs from the model on {len(idx)} loop bodies; first: {sh[idx[0]][0]}")
     return mism, len(cases)
+
+
+def choice_scalar_check(ctx, n, failing, cid):
+    """Polynomial.choice_scalar (what apply_choice reads every cell with) against the semiring maximum of the scalars of the
+    monomials matching the choice, on reachable polynomials AND on raw ones mixing every pair of coefficients under one choice
+    (w together with p, m with w, ... : the order of the coefficients is o < m < w < p < i, not alphabetical)."""
+    vlib.import_pymwp()
+    rng = ctx.rng
+    nev = 0
+    for i in range(n):
+        ns = rng.choice([1, 2, 3])
+        if i % 2:
+            data = PL.to_data(PL.gen_reachable(rng, rng.choice([1, 2, 3]), ns))
+        else:
+            k = rng.choice([2, 2, 3, 4])
+            data = []
+            for _ in range(k):
+                ds = sorted({(rng.randrange(3), j) for j in range(ns) if rng.random() < 0.6}, key=lambda d: d[1])
+                data.append((rng.choice("mwpi" if rng.random() < 0.9 else "o"), [list(d) for d in ds]))
+        try:
+            p = PL.from_data(data, raw=True)
+        except Exception:
+            continue
+        for c in PL.all_choices(ns):
+            nev += 1
+            want = PL.smax(PL.poly_terms(data, c)) if PL.poly_terms(data, c) else None
+            try:
+                got = p.choice_scalar(*c)
+            except Exception as e:
+                got = "raise:" + str(vlib.exc_sig(e))
+            if got != want:
+                if not any(f["sig"] == [cid, "choice-scalar"] for f in failing):
+                    failing.append({"what": f"choice-scalar: Polynomial.choice_scalar{tuple(c)} = {got!r}, the largest coefficient among the matching monomials is {want!r}",
+                                    "sig": [cid, "choice-scalar"], "input": {"poly": data, "choice": list(c)}, "expected": want, "observed": got})
+                return nev
+    return nev
+
+
+def replay_unit(inp, cid):
+    """re-evaluate a failing input reported by one of the unit streams above; None = it no longer fails (or is not one of ours)"""
+    vlib.import_pymwp()
+    if "poly" in inp and "choice" in inp:
+        data = [(s_, [tuple(d) for d in ds]) for s_, ds in inp["poly"]]
+        p = PL.from_data(data, raw=True)
+        terms = PL.poly_terms(data, inp["choice"])
+        want = PL.smax(terms) if terms else None
+        got = p.choice_scalar(*inp["choice"])
+        return None if got == want else {"what": "choice-scalar", "sig": [cid, "choice-scalar"], "input": inp, "expected": want, "observed": got}
+    if "body" in inp and "choice" in inp:
+        from pymwp import Relation
+        stmts = [(list(vs_), x, [[(s_, [tuple(d) for d in ds]) for s_, ds in cell] for cell in vec]) for vs_, x, vec in inp["body"]]
+        r = Relation()
+        for vs_, x, vec in stmts:
+            r = r * Relation.identity(list(vs_)).replace_column([PL.from_data(p) for p in vec], x)
+        V = list(r.variables)
+        body = [[PL.to_data(p) for p in row] for row in r.matrix]
+        f = vlib.with_timeout(lambda: r.fixpoint(), 30)
+        fm = [[PL.to_data(p) for p in row] for row in f.matrix]
+        fv = list(f.variables)
+        c = tuple(inp["choice"])
+        A = {(x, y): PL.smax(PL.poly_terms(body[V.index(x)][V.index(y)], c)) for x in V for y in V}
+        cur = {(x, y): ("m" if x == y else "o") for x in V for y in V}
+        while True:
+            nxt = {(x, y): PL.smax([("m" if x == y else "o")] + [PL.sprod(cur[(x, z)], A[(z, y)]) for z in V]) for x in V for y in V}
+            if nxt == cur:
+                break
+            cur = nxt
+        R = {(x, y): PL.smax(PL.poly_terms(fm[fv.index(x)][fv.index(y)], c)) for x in V for y in V}
+        return None if R == cur else {"what": "closure: Relation.fixpoint is not the closure", "sig": [cid, "closure"], "input": inp}
+    return None
